@@ -74,7 +74,8 @@ def floors(tier):
     f.update({"ended:exception": 50 * k, "ended:exhaustion": 30 * k, "ended:failure_limit": 30 * k, "ended:criterion": 150 * k,
               "decided:loop_ends": 5000 * k, "decided:counters_vs_history": 5000 * k, "decided:post_run_state": 400 * k,
               "decided:budget_overshoot": 100 * k, "runs:wait_trial_completion": 60 * k, "decided:results_file_rows": 300 * k,
-              "decided:reentry_with_criterion_holding": 30 * k})
+              "decided:reentry_with_criterion_holding": 30 * k, "ended_by_criterion_after_exhaustion_with_trials_running": 5 * k,
+              "decided:criterion_at_loop_start": 5000 * k})
     return f
 
 
@@ -125,6 +126,16 @@ def expand(spec):
             stop[f] = {"loss": rng.uniform(0.7, 0.99)}
         else:
             stop[f] = {"loss": rng.uniform(0.01, 0.3)}
+        if f in ("max_metric_value", "min_metric_value"):
+            # several thresholds in one dict: on a metric no trial ever reports (listed first or last) and on one that is
+            # always reported but never crossed; each threshold counts by itself
+            r = rng.random()
+            if r < 0.3:
+                stop[f] = dict({"never_reported": 0.5}, **stop[f])
+            elif r < 0.45:
+                stop[f] = dict(stop[f], never_reported=0.5)
+            elif r < 0.6:
+                stop[f] = dict({"epoch": 1e9 if f == "max_metric_value" else -1.0}, **stop[f])
     if ending in ("exception", "failure_limit", "exhaustion") or not any(
             f in stop for f in ("max_num_trials_started", "max_num_evaluations", "max_wallclock_time")):
         # guarantee termination: a generous backstop (decided like any other field)
@@ -142,6 +153,17 @@ def expand(spec):
             p["plan"]["fail"] = plan
     if ending == "exhaustion":
         p["stop"] = {"max_num_trials_started": 10000}
+        if rng.random() < 0.5:
+            # the space runs out while trials are running and a criterion starts to hold only afterwards
+            size = len(simrun.grid_of(p["table"])[1]) if spec["backend"] == "sim" else gen.space_size(p["space"])
+            if size and size < 200:
+                # aim between "all configurations started" and "all of them finished"
+                p["n_workers"] = max(p["n_workers"], rng.randint(2, 6))
+                last = min(p["n_workers"], size) * lv
+                p["stop"]["max_num_evaluations"] = max(1, size * lv - rng.randint(1, max(1, last - 1)))
+            else:
+                p["stop"]["max_num_evaluations"] = rng.randint(3, 40)
+            p["late_criterion"] = True
     if ending == "exception":
         p["inject"] = {"where": rng.choice(["s.on_trial_result", "s.suggest", "b.fetch_status_results", "s.on_trial_add"]),
                        "at": rng.randint(1, 25)}
@@ -206,6 +228,12 @@ def run_case(spec):
 
     # ---- history-based reconstruction of trial statuses (as the tuner is documented to see them)
     class Watch(TunerCallback):
+        def on_loop_start(self):
+            # the status at the start of an iteration is the one the criterion was evaluated on after the previous one
+            st = tuner.tuning_status
+            if st is not None:
+                rec.ev("h.loop_start", hold=ref_criterion(p["stop"], st, sim), failed_over=st.num_trials_failed > p["max_failures"])
+
         def on_loop_end(self):
             st = tuner.tuning_status
             hold = ref_criterion(p["stop"], st, sim)
@@ -287,6 +315,14 @@ def run_case(spec):
             if first_hold is not None and not p.get("wait"):
                 V("ends_after_first_iteration_where_criterion_holds", "loop_iteration_after_criterion_held",
                   held_at_loop=first_hold[0], fields=first_hold[1])
+        elif k == "h.loop_start":
+            o.count("decided:criterion_at_loop_start")
+            if (pl["hold"] or pl["failed_over"]) and not p.get("wait"):
+                V("ends_after_first_iteration_where_criterion_holds", "loop_iteration_after_criterion_held",
+                  held_at_loop=n_loops - 1, fields=pl["hold"] + (["failure_limit"] if pl["failed_over"] else []),
+                  seen_at="loop_start", after_exhaustion=suggest_none_at is not None)
+            if (pl["hold"] or pl["failed_over"]) and suggest_none_at is not None:
+                o.count("criterion_held_after_exhaustion")
         elif k == "b.start_trial.ret":
             started += 1
             status[pl["ret"]["trial_id"]] = "InProgress"
@@ -361,11 +397,16 @@ def run_case(spec):
     # ---- clause 3: exhaustion
     if ending == "exhaustion" and ended == "criterion":
         if suggest_none_at is None:
-            o.inconclusive("space_not_exhausted")
+            if p.get("late_criterion"):
+                o.count("criterion_before_exhaustion")
+            else:
+                o.inconclusive("space_not_exhausted")
             ended = "other"
         else:
             ended = "exhaustion"
-            if running_at_end:
+            if first_hold is not None and running_at_end and not p.get("wait"):
+                o.count("ended_by_criterion_after_exhaustion_with_trials_running")
+            if running_at_end and first_hold is None:
                 V("exhaustion", "run_returned_while_trials_running_after_exhaustion", running=running_at_end)
     if ending == "failure_limit" and ended == "criterion":
         ended = "criterion"  # not enough failures happened before the backstop
